@@ -316,6 +316,18 @@ fn build_public_batch_constraints(
     builder.register_public_inputs(&output_pis);
 }
 
+/// Verification hook (cfg-gated, add-only): exposes the public wrapper-constraint builder so that the
+/// /verif harness can instantiate it over free child public-input targets (no recursive verifier).
+#[cfg(quantus_network_qp_zk_circuits_verif)]
+pub fn verif_build_public_batch_constraints(
+    builder: &mut CircuitBuilder<F, D>,
+    targets: &PublicBatchCircuitTargets,
+    n_inner: usize,
+    private_batch_num_leaves: usize,
+) {
+    build_public_batch_constraints(builder, targets, n_inner, private_batch_num_leaves)
+}
+
 #[cfg(test)]
 mod tests {
     use super::*;
